@@ -349,6 +349,13 @@ func (c *Cluster) fetchOnce(b *Broker, r *Request, act *Action, totalMax int, ma
 			if readCommitted {
 				resp["LastStableOffset"] = p.OpenTxnFrom
 			}
+			if r.Version >= 4 && i64(r.Body, "IsolationLevel") == 1 && len(p.Aborted) > 0 {
+				var ab []any
+				for _, a := range p.Aborted {
+					ab = append(ab, map[string]any{"ProducerID": a[0], "FirstOffset": a[1]})
+				}
+				resp["AbortedTransactions"] = ab
+			}
 			fetchUnits(p, off, maxMagic, func(u unit) bool {
 				if readCommitted && u.end > p.OpenTxnFrom {
 					return false // a read_committed consumer is served up to the last stable offset only
